@@ -488,6 +488,7 @@ func (self *Analyzer) continueStatement(node pAst.ContinueStatement) ast.Analyze
 func (self *Analyzer) loopStatement(node pAst.LoopStatement) ast.AnalyzedLoopStatement {
 	// validate that the block returns `null`
 	oldLoopIsTerminated := self.currentModule.CurrentLoopIsTerminated
+	self.currentModule.CurrentLoopIsTerminated = false
 	self.currentModule.LoopDepth++
 
 	body := self.block(node.Body, true)
